@@ -10,6 +10,7 @@ domain.  The theorems hold for every graph, every fuel at least the rank (the dr
 -/
 import Asynkit.Lemmas.C11
 import Asynkit.Lemmas.C12
+import Asynkit.Lemmas.C11Inherit3
 
 namespace Asynkit.C11
 open Asynkit.PrioGraph Asynkit.Lock
@@ -89,24 +90,40 @@ theorem eff_own_when_unblocking_nobody (g : Graph) (f t : Nat)
 /-!
 ### priority loop: the inherited priority takes effect immediately
 
-Full statement `inherit_immediate` (not proved in full):
-  on the priority loop, in every reachable state of a fault-free execution, for every task W
-  blocked in `acquire` and every runnable PriorityTask h that transitively holds a lock W waits for,
-  the class-1 ready-queue key of h is ≤ eff W - so by C10 (`popleft` returns the least key) no
-  runnable task less urgent than W is popped before h.
-Proved (`inherit_immediate_partial`): the step that establishes it for the direct holder - when W
-queues on a lock whose owner `o` is a runnable PriorityTask with a regular entry in the ready
-queue, `propagate_priority` re-keys that entry to `o`'s new effective priority, which (by
-`holder_at_least_as_urgent`) is at least as urgent as W's.  Every handle that is appended to the
-ready queue later is keyed by the effective priority at that moment by construction
-(`State.enqueue`), which covers holders that were blocked on an event when W arrived.
-Missing: the induction along `propL` for holders reached through a chain of lock-blocked tasks
-(the walk re-keys the runnable task at the end of the chain; the theorem for that task needs the
-chain to be ranked and the intermediate states related by `KeyEq`), and the preservation of the
-key bound by all other transitions.  The trace-acceptance stream checks the ready-queue key of
-every runnable task against the model after every handle, and the scheduling oracle checks the
-inversion bound itself on the real priority loop.
--/
+`ReachableNFK N` = states reachable from an initial state whose ready-queue keys are sound, by events
+without cancel / throw / interrupt in which every `acquire k` has `k < N` and `k` above every lock the
+task already holds (C11's quantifier: PriorityTasks, fixed lock order, no faults).  `rkey` is the
+class-1 key of the task's handle in the priority loop's ready queue (`none`: not queued, or queued
+positionally). -/
+
+/-- **inherit_immediate** (full).  On the priority loop, in every such state, for every task `w`
+    and every task `h` that holds - directly or through a chain of lock-blocked holders of any
+    length - a lock `w` waits for (`Reaches`), if `h` is in the ready queue with key `r` then
+    `r ≤ eff w`: the runnable holder is queued at least as urgently as the waiter it blocks, from
+    the very transition in which `w` started waiting.  With C10 (`popleft` returns the least
+    (class, key, arrival) entry) no runnable task strictly less urgent than `w` is popped before
+    `h`. -/
+theorem inherit_immediate {N : Nat} {s : State} (hr : ReachableNFK N s) (hf : 2 * N + 3 ≤ s.fuel)
+    (hpl : s.prioLoop = true) {w h : Nat} {r : Rat} (hreach : Reaches s.graph w h)
+    (hk : (s.tasks h).rkey = some r) :
+    r ≤ s.eff w ∧ r ≤ s.eff h ∧ ReadyStatus (s.tasks h).status := by
+  have hI := reachable_inv hr.nf.reachable
+  have hord := reachableNF_ord hr.nf
+  have hrki := reachableNFK_rki hr (by omega) hpl h r hk
+  have hle : s.eff h ≤ s.eff w :=
+    holder_at_least_as_urgent (orderedRanked hI hord) hreach
+      (by show rankT N s h ≤ s.fuel; have := rankT_le N s hord h; omega)
+  refine ⟨?_, hrki.1, hrki.2⟩
+  have := hrki.1
+  grind
+
+/-- the invariant behind it: every ready-queue key is at least as urgent as the task's current
+    effective priority (it is set to it whenever a handle is queued and whenever a waiter arrives
+    below the task; it may be *more* urgent after a fall-back, which is harmless) -/
+theorem ready_key_inv {N : Nat} {s : State} (hr : ReachableNFK N s) (hf : 2 * N ≤ s.fuel)
+    (hpl : s.prioLoop = true) : RKI s := reachableNFK_rki hr hf hpl
+
+/-- old name, kept: the establishing step for the direct holder, for arbitrary states -/
 theorem inherit_immediate_partial (s : State) (f o : Nat)
     (hp : (s.tasks o).prio.isSome = true) (hr : (s.tasks o).status.runnable = true)
     (hl : s.prioLoop = true) (hk : (s.tasks o).rkey.isSome = true) :
@@ -148,5 +165,62 @@ def chain3Ranked : Ranked chain3 where
 
 example : effT chain3 8 3 = -5 ∧ effT chain3 8 2 = -5 ∧ effT chain3 8 1 = -5 ∧ effT chain3 20 3 = -5 := by
   decide
+
+/-! non-vacuity of `inherit_immediate`: priority loop; T0(5) takes L1 and sleeps (ready key 5);
+    T1(2) takes L0 and queues on L1 (T0 re-keyed to 2); T2(-5) queues on L0: the walk passes the
+    lock-blocked T1 and re-keys the runnable T0 to -5. -/
+def runOKK (N : Nat) : State → List Ev → Bool
+  | _, [] => true
+  | s, e :: es => e.enabled s && Ev.orderly N s e && runOKK N (s.apply e) es
+
+theorem runOKK_reachable {N : Nat} : ∀ (es : List Ev) (s : State), ReachableNFK N s →
+    runOKK N s es = true → ReachableNFK N (es.foldl State.apply s)
+  | [], _, h, _ => h
+  | e :: es, s, h, ok => by
+    simp only [runOKK, Bool.and_eq_true] at ok
+    exact runOKK_reachable es _ (ReachableNFK.step e h ok.1.1 ok.1.2) ok.2
+
+def demoP : State :=
+  { tasks := fun i => if i = 0 then { prio := some 5, status := .ready false, rkey := some 5 }
+                      else if i = 1 then { prio := some 2, status := .ready false, rkey := some 2 }
+                      else if i = 2 then { prio := some (-5), status := .ready false, rkey := some (-5) }
+                      else {},
+    fuel := 7, prioLoop := true }
+
+def demoPEvents : List Ev :=
+  [.resume 0, .acquire 1, .sleep, .resume 1, .acquire 0, .acquire 1, .resume 2, .acquire 0]
+
+theorem demoP_initial : Initial demoP ∧ RKI demoP := by
+  refine ⟨⟨rfl, fun _ => rfl, fun i => ?_⟩, fun i r hr => ?_⟩
+  · simp only [demoP]
+    by_cases h0 : i = 0
+    · simp [h0]
+    · by_cases h1 : i = 1
+      · simp [h1]
+      · by_cases h2 : i = 2
+        · simp [h2]
+        · simp [h0, h1, h2]
+  · by_cases h0 : i = 0
+    · subst h0
+      have : r = 5 := by simpa [demoP] using hr.symm
+      subst this; exact ⟨by decide, Or.inr ⟨false, rfl⟩⟩
+    · by_cases h1 : i = 1
+      · subst h1
+        have : r = 2 := by simpa [demoP] using hr.symm
+        subst this; exact ⟨by decide, Or.inr ⟨false, rfl⟩⟩
+      · by_cases h2 : i = 2
+        · subst h2
+          have : r = -5 := by simpa [demoP] using hr.symm
+          subst this; exact ⟨by decide, Or.inr ⟨false, rfl⟩⟩
+        · simp [demoP, h0, h1, h2] at hr
+
+example : ReachableNFK 2 (demoPEvents.foldl State.apply demoP) ∧
+    ((demoPEvents.foldl State.apply demoP).tasks 0).rkey = some (-5) ∧
+    (demoPEvents.foldl State.apply demoP).eff 2 = -5 ∧
+    Reaches (demoPEvents.foldl State.apply demoP).graph 2 0 :=
+  ⟨runOKK_reachable demoPEvents demoP (ReachableNFK.init demoP_initial.1 demoP_initial.2) (by decide),
+   by decide, by decide,
+   Reaches.step (u := 2) (v := 1) ⟨0, by decide, by decide⟩
+     (Reaches.step (u := 1) (v := 0) ⟨1, by decide, by decide⟩ (Reaches.refl 0))⟩
 
 end Asynkit.C11
